@@ -467,6 +467,8 @@ class Num(Val):
         self.seg = None         # D3 index map (list of segmap.Seg) when the array is a re-arrangement
         self.segax = 0          # axis the index map describes (arrays of rank > 1)
         self.mirror = False     # the vector is the complex conjugate of a spectrum-bearing vector (rows of Vh)
+        self.amap = None        # 2-D data matrices: list of blocks (r0, r1, k0, k1, ai, ak, c, src, conj): entry (i,k) of rows
+                                # r0..r1 holds [conj] src[ai*i + ak*k + c]; 'bad' when the construction is inconsistent
         self.col0 = None        # for a column slice M[:, a:] / M[:, a] of a matrix: the first column index a
         self.src_uid = None     # uid of the matrix a column slice was taken from
         self.neg = False        # the array is the negation of the array it was derived from (unary minus)
@@ -501,6 +503,7 @@ class Num(Val):
         n.tr = self.tr
         n.neg = self.neg
         n.col0 = self.col0
+        n.amap = self.amap
         n.src_uid = self.src_uid
         n.base_uid = self.base_uid if self.base_uid is not None else self.uid
         for k, v in kw.items():
@@ -735,6 +738,14 @@ def num_join(a, b):
     r.ex = a.ex if (a.ex is not None and b.ex is not None and a.ex == b.ex) else None
     r.mirror = a.mirror if (b.zero or a.mirror == b.mirror) else (b.mirror if a.zero else False)
     r.sz = sz_join(a, b)
+    if a.amap == 'bad' or b.amap == 'bad':
+        r.amap = 'bad'
+    elif a.amap or b.amap:
+        blocks = []
+        for bl in list(a.amap or []) + list(b.amap or []):
+            if repr(bl) not in [repr(x) for x in blocks]:
+                blocks.append(bl)
+        r.amap = blocks
     if a.q is None and b.q is None:
         r.q = None
     else:
